@@ -122,3 +122,4 @@ func ruleJ5(c *an.Ctx) {
 	}
 	c.Floor("J5", "values handed out by the key encoders", n, 2)
 }
+
